@@ -248,6 +248,8 @@ class Repo:
             fr = _cn0.normalise_function_names(self)
             if fr:
                 self.functions_renamed = fr
+            if ridents:
+                self.ghost_removed = _cn0.drop_ghost_state(self, ridents, refnames())
         for rel in list(self.modules):
             try:
                 if os.environ.get('SA_NO_RENAME') != '1':
